@@ -108,3 +108,16 @@ Example C08_nonvacuous_retry :
    ref_decode (map ev_data (tl ev4)) = Some ex_conf /\ sched_is_enabled true (x_pend_conf (get_devx r4 0)) = false).
 Proof. vm_compute. repeat split. Qed.
 Print Assumptions C08_nonvacuous_retry.
+
+(* the content of the configuration information answer equals what the application configured (strings up to the 70 character field limit) *)
+From N2kV Require Import Model.GroupFnDefs Model.ConfInfoDefs Spec.ConfInfoSpec Proofs.ConfInfoProofs.
+Theorem C08_set_conf_info_content : set_conf_info_content_stmt.  Proof. exact set_conf_info_content. Qed.
+Print Assumptions C08_set_conf_info_content.
+(* non-vacuity: a manufacturer information of exactly 71 characters is cut to 70, the descriptions are kept *)
+Example C08_conf_info_nonvacuous :
+  let c0 := {| c_only_known := false; c_iso_handler := None; c_prodinfo := []; c_confinfo := []; c_hb_on := false;
+               c_inst1 := []; c_inst2 := []; c_manuf := []; c_inst_changed := false |} in
+  let c := set_configuration_information c0 (repeat 77 71) [65; 66] [] in
+  c_confinfo c = [4; 1; 65; 66; 2; 1; 72; 1] ++ repeat 77 70 /\ length (c_confinfo c) = 78%nat.
+Proof. vm_compute. split; reflexivity. Qed.
+Print Assumptions C08_conf_info_nonvacuous.
